@@ -237,29 +237,28 @@ pub struct Monitors {
     pub violations: Vec<String>,
 }
 
-thread_local! {
-    /// when set, the interpreter samples shuttle::current::clock() after every operation ("C" events)
-    pub static SAMPLE_CLOCKS: std::cell::Cell<bool> = const { std::cell::Cell::new(false) };
-}
+/// when set, the interpreter samples shuttle::current::clock() after every operation ("C" events)
+/// (process-wide: runs execute on their own threads)
+pub static SAMPLE_CLOCKS: std::sync::atomic::AtomicBool = std::sync::atomic::AtomicBool::new(false);
 
 fn sample_clock(label: &str) {
-    if SAMPLE_CLOCKS.with(|s| s.get()) {
+    if SAMPLE_CLOCKS.load(std::sync::atomic::Ordering::SeqCst) {
         let c = shuttle::current::clock();
         let v: Vec<String> = c.iter().map(|x| x.to_string()).collect();
         log("C", label, v.join(","));
     }
 }
 
-thread_local! {
-    static LAST_MONITORS: std::cell::RefCell<Monitors> = std::cell::RefCell::new(Monitors::default());
-}
+/// monitor violations of the run(s) since the last take (process-wide: runs execute on their own
+/// threads, one at a time)
+static LAST_MONITORS: StdMutex<Vec<String>> = StdMutex::new(Vec::new());
 
 pub fn take_monitor_violations() -> Vec<String> {
-    LAST_MONITORS.with(|m| std::mem::take(&mut m.borrow_mut().violations))
+    std::mem::take(&mut *LAST_MONITORS.lock().unwrap_or_else(|e| e.into_inner()))
 }
 
 fn mon_violation(s: String) {
-    LAST_MONITORS.with(|m| m.borrow_mut().violations.push(s));
+    LAST_MONITORS.lock().unwrap_or_else(|e| e.into_inner()).push(s);
 }
 
 struct Local {
